@@ -37,9 +37,10 @@ theorem Asc_hex8 (c : Nat) : Asc (hex8 c) := by
   simp only [hex8, Asc_cons, Asc_nil, and_true]
   refine ⟨?_, ?_, ?_, ?_, ?_, ?_, ?_, ?_⟩ <;> exact hexUpper_lt _ (by omega)
 
-theorem Asc_escIRIRune (T : Tables) (hA : TablesAscii T) (c : Nat) : Asc (escIRIRune T true c) := by
+theorem Asc_escIRIRune (T : Tables) (hA : TablesAscii T) (c : Nat) (hc : c ≤ 0x10FFFF) :
+    Asc (escIRIRune T true c) := by
   have hm := hA.iri_mode_a c
-  have h0 := hA.iri_ascii c
+  have h0 := hA.iri_ascii c hc
   unfold escIRIRune
   split
   · simp [Asc_hex4]
@@ -53,13 +54,15 @@ theorem Asc_escIRIRune (T : Tables) (hA : TablesAscii T) (c : Nat) : Asc (escIRI
         · exact absurd (by omega) h2
     simp [h0 this]
 
-theorem Asc_writeIRI (T : Tables) (hA : TablesAscii T) (s : List Nat) : Asc (writeIRI T true s) := by
+theorem Asc_writeIRI (T : Tables) (hA : TablesAscii T) (s : List Nat) (hs : RunesInRange s) :
+    Asc (writeIRI T true s) := by
   simp only [writeIRI, Asc_cons, Asc_append, Asc_nil, iriBody]
-  exact ⟨by omega, Asc_flatMap _ _ (fun c _ => Asc_escIRIRune T hA c), by omega, trivial⟩
+  exact ⟨by omega, Asc_flatMap _ _ (fun c hc => Asc_escIRIRune T hA c (hs c hc)), by omega, trivial⟩
 
-theorem Asc_escLitRune (T : Tables) (hA : TablesAscii T) (c : Nat) : Asc (escLitRune T true c) := by
+theorem Asc_escLitRune (T : Tables) (hA : TablesAscii T) (c : Nat) (hc : c ≤ 0x10FFFF) :
+    Asc (escLitRune T true c) := by
   have hm := hA.lit_mode_a c
-  have h0 := hA.lit_ascii c
+  have h0 := hA.lit_ascii c hc
   unfold escLitRune
   split
   · simp [hA.echar_ascii c]
@@ -77,11 +80,12 @@ theorem Asc_escLitRune (T : Tables) (hA : TablesAscii T) (c : Nat) : Asc (escLit
     simp [h0 this]
 
 theorem Asc_writeLiteral (T : Tables) (hA : TablesAscii T) (lex dt : List Nat)
-    (lang : Option (List Nat)) (hlang : ∀ t, lang = some t → Asc t) :
+    (lang : Option (List Nat)) (hlex : RunesInRange lex) (hdt : RunesInRange dt)
+    (hlang : ∀ t, lang = some t → Asc t) :
     Asc (writeLiteral T true lex dt lang) := by
   have hq : Asc (0x22 :: (litBody T true lex ++ [0x22])) := by
     simp only [Asc_cons, Asc_append, Asc_nil, litBody]
-    exact ⟨by omega, Asc_flatMap _ _ (fun c _ => Asc_escLitRune T hA c), by omega, trivial⟩
+    exact ⟨by omega, Asc_flatMap _ _ (fun c hc => Asc_escLitRune T hA c (hlex c hc)), by omega, trivial⟩
   unfold writeLiteral
   simp only
   split
@@ -95,42 +99,43 @@ theorem Asc_writeLiteral (T : Tables) (hA : TablesAscii T) (lex dt : List Nat)
         exact ⟨by omega, hlang t rfl⟩
     · refine (Asc_append _ _).2 ⟨hq, ?_⟩
       simp only [Asc_cons]
-      exact ⟨by omega, by omega, Asc_writeIRI T hA dt⟩
+      exact ⟨by omega, by omega, Asc_writeIRI T hA dt hdt⟩
 
 theorem Asc_writeNode (T : Tables) (hA : TablesAscii T) (label : β → List Nat)
-    (hlab : ∀ b, Asc (label b)) (t : Term β) (w : List Nat)
+    (hlab : ∀ b, Asc (label b)) (t : Term β) (hr : TermInRange t) (w : List Nat)
     (h : writeNode T true label t = some w) : Asc w := by
   cases t with
-  | iri v => simp only [writeNode, Option.some.injEq] at h; subst h; exact Asc_writeIRI T hA v
+  | iri v => simp only [writeNode, Option.some.injEq] at h; subst h; exact Asc_writeIRI T hA v hr
   | bnode b =>
     simp only [writeNode, Option.some.injEq] at h; subst h
     simp only [Asc_cons]; exact ⟨by omega, by omega, hlab b⟩
   | lit l d t => simp [writeNode] at h
 
-theorem Asc_writePredicate (T : Tables) (hA : TablesAscii T) (t : Term β) (w : List Nat)
-    (h : writePredicate T true t = some w) : Asc w := by
+theorem Asc_writePredicate (T : Tables) (hA : TablesAscii T) (t : Term β) (hr : TermInRange t)
+    (w : List Nat) (h : writePredicate T true t = some w) : Asc w := by
   cases t with
-  | iri v => simp only [writePredicate, Option.some.injEq] at h; subst h; exact Asc_writeIRI T hA v
+  | iri v => simp only [writePredicate, Option.some.injEq] at h; subst h; exact Asc_writeIRI T hA v hr
   | bnode b => simp [writePredicate] at h
   | lit l d t => simp [writePredicate] at h
 
 theorem Asc_writeObject (T : Tables) (hA : TablesAscii T) (label : β → List Nat)
-    (hlab : ∀ b, Asc (label b)) (t : Term β)
+    (hlab : ∀ b, Asc (label b)) (t : Term β) (hr : TermInRange t)
     (hlang : ∀ l d tg, t = .lit l d (some tg) → Asc tg) (w : List Nat)
     (h : writeObject T true label t = some w) : Asc w := by
   cases t with
-  | iri v => simp only [writeObject] at h; exact Asc_writeNode T hA label hlab _ w h
-  | bnode b => simp only [writeObject] at h; exact Asc_writeNode T hA label hlab _ w h
+  | iri v => simp only [writeObject] at h; exact Asc_writeNode T hA label hlab _ hr w h
+  | bnode b => simp only [writeObject] at h; exact Asc_writeNode T hA label hlab _ hr w h
   | lit l d tg =>
     simp only [writeObject, Option.some.injEq] at h; subst h
-    exact Asc_writeLiteral T hA l d tg (fun t' ht' => hlang l d t' (by rw [ht']))
+    exact Asc_writeLiteral T hA l d tg hr.1 hr.2 (fun t' ht' => hlang l d t' (by rw [ht']))
 
 theorem Asc_encodeQuad (T : Tables) (hA : TablesAscii T) (label : β → List Nat)
-    (hlab : ∀ b, Asc (label b)) (quads : Bool) (q : Quad β)
+    (hlab : ∀ b, Asc (label b)) (quads : Bool) (q : Quad β) (hr : QuadInRange q)
     (hlang : ∀ l d tg, q.o = .lit l d (some tg) → Asc tg) :
     Asc ((encodeQuad T true label quads q).getD []) := by
   obtain ⟨s, p, o, g⟩ := q
-  simp only at hlang
+  obtain ⟨hrs, hrp, hro, hrg⟩ := hr
+  simp only at hlang hrs hrp hro hrg
   unfold encodeQuad
   simp only
   cases hs : writeNode T true label s with
@@ -142,9 +147,9 @@ theorem Asc_encodeQuad (T : Tables) (hA : TablesAscii T) (label : β → List Na
       cases ho : writeObject T true label o with
       | none => simp
       | some wo =>
-        have h1 := Asc_writeNode T hA label hlab _ _ hs
-        have h2 := Asc_writePredicate T hA _ _ hp
-        have h3 := Asc_writeObject T hA label hlab _ hlang _ ho
+        have h1 := Asc_writeNode T hA label hlab _ hrs _ hs
+        have h2 := Asc_writePredicate T hA _ hrp _ hp
+        have h3 := Asc_writeObject T hA label hlab _ hro hlang _ ho
         have base : Asc (ws ++ 0x20 :: wp ++ 0x20 :: wo ++ [] ++ [0x20, 0x2e, 0x0a]) := by
           simp [h1, h2, h3]
         cases quads with
@@ -156,16 +161,17 @@ theorem Asc_encodeQuad (T : Tables) (hA : TablesAscii T) (label : β → List Na
             cases hgw : writeNode T true label g with
             | none => simp [hgw]
             | some wg =>
-              have h4 := Asc_writeNode T hA label hlab _ _ hgw
+              have h4 := Asc_writeNode T hA label hlab _ (hrg g rfl) _ hgw
               simp [hgw, h1, h2, h3, h4]
 
 theorem ascii_output (T : Tables) (hA : TablesAscii T) (label : β → List Nat)
     (hlab : ∀ b, ∀ c ∈ label b, c < 0x80) (quads : Bool) (qs : List (Quad β))
+    (hrange : ∀ q ∈ qs, QuadInRange q)
     (hlang : ∀ q ∈ qs, ∀ l d t, q.o = .lit l d (some t) → ∀ c ∈ t, c < 0x80) :
     ∀ c ∈ encodeDoc T true label quads qs, c < 0x80 := by
   have : Asc (encodeDoc T true label quads qs) := by
     unfold encodeDoc
-    exact Asc_flatMap _ _ (fun q hq => Asc_encodeQuad T hA label hlab quads q (hlang q hq))
+    exact Asc_flatMap _ _ (fun q hq => Asc_encodeQuad T hA label hlab quads q (hrange q hq) (hlang q hq))
   exact this
 
 theorem langRest_ascii (t : List Nat) : ∀ need, langRest t need = true → Asc t := by
